@@ -94,12 +94,16 @@ def strategy(tier):
     return _case()
 
 
+class _Undeclarable(Exception):
+    pass
+
+
 def _build(spec):
     from d42.declaration import DeclarationError
     try:
         return specs.build(spec)
     except DeclarationError as e:
-        raise HarnessError(f"undeclarable operand {spec!r}: {e}")
+        raise _Undeclarable(str(e))
 
 
 def _flat_alts(sch):
@@ -114,6 +118,13 @@ def _flat_alts(sch):
 
 
 def check(case, ctx):
+    try:
+        return _check(case, ctx)
+    except _Undeclarable as e:
+        ctx.skip_undeclarable(None, e)
+
+
+def _check(case, ctx):
     from d42 import fake, schema, substitute, validate
     from d42.substitution.errors import SubstitutionError
     from d42.utils import make_required
